@@ -81,26 +81,7 @@ fn test_trait_flags() {
 fn test_wellknown_traits() {
     // Test all possible `#[lang]` attributes on traits.
     let well_knowns = vec![
-        "sized",
-        "copy",
-        "clone",
-        "drop",
-        "fn_once",
-        "fn_mut",
-        "fn",
-        "async_fn_once",
-        "async_fn_mut",
-        "async_fn",
-        "unsize",
-        "unpin",
-        "coerce_unsized",
-        "discriminant_kind",
-        "coroutine",
-        "dispatch_from_dyn",
-        "tuple_trait",
-        "pointee_trait",
-        "fn_ptr_trait",
-        "future",
+        "sized", "copy", "clone", "drop", "fn_once", "fn_mut", "fn", "unsize",
     ];
     for flag in well_knowns {
         reparse_test(&format!(
